@@ -98,13 +98,24 @@ def check_fresh(acc, name, v, via_alias=False):
         gc.collect()
 
 
-def check_voltage(acc, name, v, kind):
-    """One reading; returns the distance (or None)."""
+def check_voltage(acc, name, v, kind, rail=None):
+    """One reading; returns the distance (or None).  rail: the roboRIO's 5 V rail during the reading, if not nominal."""
+    if rail is not None:
+        from wpilib.simulation import RoboRioSim
+        RoboRioSim.setUserVoltage5V(rail)
+        try:
+            return _check_voltage(acc, name, v, kind, rail)
+        finally:
+            RoboRioSim.setUserVoltage5V(5.0)
+    return _check_voltage(acc, name, v, kind, None)
+
+
+def _check_voltage(acc, name, v, kind, rail):
     c, e, lo, hi = MODELS[name]
     s, sim, _ = sensors()[name]
     sim.setVoltage(v)
     hist = _RECENT.setdefault("all", [])
-    case = {"mode": "voltage", "model": name, "v_bits": struct.pack(">d", v).hex(), "history": list(hist)}
+    case = {"mode": "voltage", "model": name, "v_bits": struct.pack(">d", v).hex(), "history": list(hist), "rail": rail}
     hist.append(["v", struct.pack(">d", v).hex(), name])
     del hist[:-HIST]
     acc.evaluations += 1
@@ -237,16 +248,13 @@ def run_shard(spec):
             pairs = []
             for _ in range(spec["n"] // 3):
                 v = rand_double(rng)
-                sag = rng.random() < 0.1
-                if sag:
+                rail = None
+                if rng.random() < 0.1:
                     # the roboRIO's 5 V rail is not at its nominal value (brown-out, heavy load): the sensor's output voltage is
                     # what it is, the reading must not depend on the rail
-                    from wpilib.simulation import RoboRioSim
-                    RoboRioSim.setUserVoltage5V(rng.choice([4.5, 4.75, 4.9, 5.1, 0.0]))
+                    rail = rng.choice([4.5, 4.75, 4.9, 5.1, 0.0])
                     acc.ev("five-volt-rail-off-nominal")
-                pairs.append((v, check_voltage(acc, name, v, "random-double")))
-                if sag:
-                    RoboRioSim.setUserVoltage5V(5.0)
+                pairs.append((v, check_voltage(acc, name, v, "random-double", rail=rail)))
                 if rng.random() < 0.3 and 0 < v < 6:
                     # consecutive readings a hair apart on the same driver object (sub-LSB steps never occur in a code sweep)
                     v2 = v + rng.choice([1e-6, 1e-5, 1e-4, 5e-4, 9e-4, -1e-4, -5e-4])
@@ -312,7 +320,7 @@ def _replay_once(case, cross_model_first):
         check_fresh(acc, case["model"], v, case.get("via_alias", False))
     elif case["mode"] == "voltage":
         v = struct.unpack(">d", bytes.fromhex(case["v_bits"]))[0]
-        check_voltage(acc, case["model"], v, "replay")
+        check_voltage(acc, case["model"], v, "replay", rail=case.get("rail"))
     elif case["mode"] == "pair":
         v1 = struct.unpack(">d", bytes.fromhex(case["v1"]))[0]
         v2 = struct.unpack(">d", bytes.fromhex(case["v2"]))[0]
